@@ -196,6 +196,7 @@ static void pop_item (long it, void *arg)
 	snprintf (g_desc, sizeof g_desc, "popcnt chunk=%ld", it); memcpy (vf_slot (), g_desc, sizeof g_desc);
 	for (w = lo; w < hi; w++) {
 		int want = __builtin_popcountll (w);
+		if ((w & 0xFFFFF) == 0) vf_heartbeat ();
 		if ((int) of_hweight32 ((UINT32) w) != want) { if (!bad32++) f32 = w; }
 		if ((int) of_hweight32_table ((UINT32) w) != want) { if (!badt++) ft = w; }
 		if ((int) of_hweight32_naive ((UINT32) w) != want) { if (!badn++) fn = w; }
@@ -224,7 +225,9 @@ static void pop_item (long it, void *arg)
 }
 
 /* ============================================================ solver mode */
-static int LENS[3] = {1, 8, 9};
+static int LENS[7] = {1, 8, 9, 5, 6, 7, 13};
+#define NLENS_SMALL 3
+#define NLENS_ALL 7
 static void solve_case (int p, int q, const uint64_t *rows /* p rows, bit j = column j (q<=64) or NULL for embedded */, const bitmat *Mbig, int len, int nullrhs, const char *desc)
 {
 	of_linear_binary_code_cb_t cb;
@@ -279,10 +282,10 @@ static void solver_item (long it, void *arg)
 		int p = PQ[it].p, q = PQ[it].q, li, nr;
 		uint64_t tot = (uint64_t) 1 << (p * q), x;
 		for (x = 0; x < tot; x++) {
-			uint64_t rows[8]; int i; char d[128];
+			uint64_t rows[24]; int i; char d[128];
 			for (i = 0; i < p; i++) rows[i] = (x >> (i * q)) & (((uint64_t) 1 << q) - 1);
-			for (li = 0; li < 3; li++) for (nr = 0; nr < 2; nr++) {
-				if (!g_solver_thorough && li != (int) (x % 3) && tot > 70000) continue;
+			for (li = 0; li < (p >= 9 ? NLENS_ALL : NLENS_SMALL); li++) for (nr = 0; nr < 2; nr++) {
+				if (!g_solver_thorough && li != (int) (x % (p >= 9 ? NLENS_ALL : NLENS_SMALL)) && tot > 70000) continue;
 				snprintf (d, sizeof d, "solver p=%d q=%d matrix=0x%llx len=%d nullrhs=%d", p, q, (unsigned long long) x, LENS[li], nr);
 				solve_case (p, q, rows, NULL, LENS[li], nr, d);
 			}
@@ -326,7 +329,7 @@ static void item_replay (long it, void *arg)
 		if ((int) of_hweight32_table ((UINT32) w) != want) dviol ("fn=of_hweight32_table|kind=wrong-popcount");
 		if ((int) of_hweight32_naive ((UINT32) w) != want) dviol ("fn=of_hweight32_naive|kind=wrong-popcount");
 	} else if (!strncmp (cs, "solver p=", 9)) {
-		int p, q, len, nr, i; unsigned long long x; uint64_t rows[8];
+		int p, q, len, nr, i; unsigned long long x; uint64_t rows[24];
 		if (sscanf (cs, "solver p=%d q=%d matrix=0x%llx len=%d nullrhs=%d", &p, &q, &x, &len, &nr) != 5) return;
 		for (i = 0; i < p; i++) rows[i] = (x >> (i * q)) & (((uint64_t) 1 << q) - 1);
 		solve_case (p, q, rows, NULL, len, nr, cs);
@@ -369,6 +372,8 @@ int main (int argc, char **argv)
 		for (p = 1; p <= 4; p++) for (q = 1; q <= p; q++) { PQ[NPQ].p = p; PQ[NPQ].q = q; NPQ++; }
 		for (q = 1; q <= 4; q++) { PQ[NPQ].p = 5; PQ[NPQ].q = q; NPQ++; }
 		for (q = 1; q <= 3; q++) { PQ[NPQ].p = 6; PQ[NPQ].q = q; NPQ++; }
+		/* tall systems: a pivot with eight or more rows to eliminate at once (8-way unrolled kernels) */
+		PQ[NPQ].p = 9; PQ[NPQ].q = 1; NPQ++; PQ[NPQ].p = 10; PQ[NPQ].q = 1; NPQ++; PQ[NPQ].p = 12; PQ[NPQ].q = 1; NPQ++; PQ[NPQ].p = 17; PQ[NPQ].q = 1; NPQ++; PQ[NPQ].p = 9; PQ[NPQ].q = 2; NPQ++;
 		vf_pool_run (NPQ + 2, solver_item, NULL, 0);
 		vf_sample ("solver p=3 q=2 matrix=0x2d: rows {10,11,01}.. right-hand sides built from x_j = 1<<j; status OK <=> rank 2; variables compared with x");
 	}
